@@ -1,6 +1,6 @@
 (* C09 — Crash consistency of imports, transfers, checks and deletions (item model: Model/Item.v). *)
 From Coq Require Import List NArith Bool Arith.
-From Alp Require Import Base.Str Base.Types Model.Pull Model.Item Proofs.ItemProofs Model.Import Proofs.ImportCrashProofs.
+From Alp Require Import Base.Str Base.Types Model.Pull Model.Item Proofs.ItemProofs Model.Import Proofs.ImportCrashProofs Model.Rmdirs Proofs.RmdirsProofs.
 Import ListNotations.
 
 (* A kill after any number k of database statements / file-system calls of any task (verification of either copy, deletion,
@@ -49,3 +49,30 @@ Print Assumptions C09_import_recovers.
 Example C09_example : pre_transfer ex_item = true /\ good_env ex_env = true /\ length (all_crash_states ex_env (BFail true LPartial) ex_item) = 8%nat
   /\ dst_row (rounds 1 ex_env ex_item) = Some (HY, WY) /\ req (rounds 1 ex_env ex_item) = Completed.
 Proof. exact example_item. Qed.
+
+(* "... or gone from its source exactly as an uninterrupted run leaves it": the clean-up of the directories a deleted file leaves
+   empty (ioutil.remove_filedir) is a walk up a chain of directories.  Killed after ANY number of rmdirs, the retry ends exactly
+   where the uninterrupted walk ends, for every chain (any depth, any level holding other entries, any levels already gone);
+   a second run changes nothing; only directories holding nothing else are ever removed; and the result is the expected one:
+   nothing of the chain up to the first directory that holds something else. *)
+Theorem C09_directory_cleanup_retry_converges : forall k l, walk false (walk_k k false l) = walk false l.
+Proof. exact retry_converges. Qed.
+Print Assumptions C09_directory_cleanup_retry_converges.
+Theorem C09_directory_cleanup_idempotent : forall l, walk false (walk false l) = walk false l.
+Proof. exact walk_idem. Qed.
+Print Assumptions C09_directory_cleanup_idempotent.
+Theorem C09_directory_cleanup_removes_only_empty : forall inner l,
+  Forall2 (fun a b => b = a \/ (b = dir_gone /\ present a = true /\ others a = false)) l (walk inner l).
+Proof. exact walk_removes_only_empty. Qed.
+Print Assumptions C09_directory_cleanup_removes_only_empty.
+Theorem C09_directory_cleanup_result : forall l, wf l = true ->
+  Forall2 (fun a b => present a = present b /\ (present a = true -> others a = others b)) (walk false l) (expected l).
+Proof. exact walk_expected. Qed.
+Print Assumptions C09_directory_cleanup_result.
+(* the variant that stops at the first directory that is already gone is refuted: killed after one rmdir, its retry leaves the outer
+   directory behind for ever *)
+Theorem C09_stop_at_missing_refuted : walk_stop false (walk_k 1 false ex_chain) <> walk_stop false ex_chain.
+Proof. exact stop_variant_refuted. Qed.
+Print Assumptions C09_stop_at_missing_refuted.
+Example C09_example_retry : walk false (walk_k 1 false ex_chain) = [dir_gone; dir_gone] /\ walk false ex_chain = [dir_gone; dir_gone] /\ wf ex_chain = true.
+Proof. exact example_retry. Qed.
